@@ -1,7 +1,7 @@
 (* C16 -- any valid font info compiles; explicit values win, absent ones fall back. *)
-From Coq Require Import QArith Qcanon.
+From Coq Require Import QArith Qcanon List.
 From U2F Require Import Base.Prelude Generated.Constants Geometry.Model Info.PSName Info.PSNameProofs
-     Info.Fallback Info.FallbackProofs.
+     Info.Fallback Info.FallbackProofs Info.NameTable Info.NameTableProofs.
 
 (* The generated PostScript font name contains only printable ASCII without
    spaces or any of []{}<>()/% -- for every string and EVERY Unicode
@@ -57,3 +57,21 @@ Theorem C16_intListToNum_bits : forall l start len k, (0 <= k)%Z ->
   Z.testbit (int_list_to_num l start len) k = ((k <? Z.of_nat len)%Z && existsb (Z.eqb (start + k)) l).
 Proof. exact intListToNum_bits. Qed.
 Print Assumptions C16_intListToNum_bits.
+
+(* ---- the name table (Info/NameTable.v): which records are written, given the resolved values ---- *)
+(* every resolved, non-empty name other than the typographic pair is written as given *)
+Theorem C16_names_written_as_given : forall vals k v,
+  NoDup (map fst vals) -> k <> 16%nat -> k <> 17%nat -> nassoc k vals = Some v -> v <> [] ->
+  nassoc k (name_records vals) = Some v.
+Proof. exact other_names_written. Qed.
+Print Assumptions C16_names_written_as_given.
+
+(* IDs 16/17 are dropped only when BOTH equal IDs 1/2, so a reader (16 else 1, 17 else 2) always gets the preferred
+   family and subfamily *)
+Theorem C16_typographic_names_always_readable : forall vals f s f1 s1,
+  NoDup (map fst vals) ->
+  nassoc 16 vals = Some f -> nassoc 17 vals = Some s -> nassoc 1 vals = Some f1 -> nassoc 2 vals = Some s1 ->
+  f <> [] -> s <> [] -> f1 <> [] -> s1 <> [] ->
+  typographic_family (name_records vals) = f /\ typographic_subfamily (name_records vals) = s.
+Proof. exact typographic_names_readable. Qed.
+Print Assumptions C16_typographic_names_always_readable.
